@@ -175,6 +175,9 @@ def run(ctx):
             st = [e for e in p.effects if e[0] == "store" and D.show(e[1]) == f"rule.{var}.0" and e[2] == "enabled"]
             good = good and len(st) == 1 and D.show(st[0][3]).startswith(f"IndexSet::get(self.{k}, ") and D.show(st[0][3]).endswith(".Some.0.enabled")
         ctx.check(good, "C13.enabled", f"C13.enabled:{k}", w.where(fi), bad_msg=f"replacing a {k} rule does not keep its enabled flag")
+    # the order of every list is the documented one only if nothing else in the push module reorders it (e.g. update_with_server_default)
+    from . import C12 as _C12
+    _C12.list_order_rule(ctx, w, "C13.list-order")
     ctx.assumptions += ["indexmap::IndexSet::{replace_full, move_index, get_index_of} behave as documented",
                         "Hash/Eq/Equivalent of the rule types key on rule_id only (uniqueness per kind) - checked in C12.keys"]
     ctx.samples += [{"op": "insert first override rule into an empty ruleset", "expected": "index clamped to len-1 = 0, no panic"},
